@@ -37,7 +37,7 @@ theorem C16_no_update_before_sync (cfg : Cfg) (s : State) (op : Op) (h : AssignO
       simp only [hl, if_true]
       split
       · simp
-      · cases validate kvs <;> simp [setObj]
+      · cases validate (cfg.enc o.cls) kvs <;> simp [setObj]
   | _ => exact absurd h (by simp [AssignOnLazy])
 
 /-- … hence after ANY number of assignments on lazy objects (interleaved over any handles) the ghost
@@ -114,7 +114,8 @@ theorem C16_sync_flushes_then_reloads (cfg : Cfg) (s : State) (h : Hnd) (o : Ins
       intro c i hne; exact updRow_other _ _ _ _ _ _ (by simpa using hne)
 
 /-- **"Latest pending value of each assigned column".**  After a run of assignments `as` (oldest first) to
-    a lazy object the pending list holds, for every column, the value of the LAST assignment to it (or what
+    a lazy object the pending list holds, for every column, the database-side value (`enc` = `from_python`) of
+    the LAST assignment to it (or what
     was pending before, if the run did not assign it) — and that list is what `C16_sync_writes_pending`
     sends (and what reads show: `C05_read_eq_db`). -/
 theorem C16_pending_latest (cfg : Cfg) (s : State) (h : Hnd) (o : Inst) (as : List (Col × Val))
@@ -122,23 +123,25 @@ theorem C16_pending_latest (cfg : Cfg) (s : State) (h : Hnd) (o : Inst) (as : Li
     ∃ o', (run cfg s (as.map fun kv => Op.setattr h kv.1 (.ok kv.2) false)).objs h = some o' ∧
       o'.cls = o.cls ∧ o'.id = o.id ∧
       (∀ c, plookup c o'.pending = match latest as c with
-        | some v => some v
+        | some v => some (cfg.enc o.cls c v)
         | none => plookup c o.pending) := by
   suffices key : ∃ o', (run cfg s (as.map fun kv => Op.setattr h kv.1 (.ok kv.2) false)).objs h = some o' ∧
       o'.cls = o.cls ∧ o'.id = o.id ∧
-      o'.pending = as.foldl (fun p kv => passign kv.1 kv.2 p) o.pending by
+      o'.pending = as.foldl (fun p kv => passign kv.1 (cfg.enc o.cls kv.1 kv.2) p) o.pending by
     obtain ⟨o', h1, h2, h3, h4⟩ := key
-    exact ⟨o', h1, h2, h3, fun c => by rw [h4]; exact plookup_foldl_passign as o.pending c⟩
+    exact ⟨o', h1, h2, h3, fun c => by rw [h4]; exact plookup_foldl_passign_enc (cfg.enc o.cls) as o.pending c⟩
   induction as generalizing s o with
   | nil => exact ⟨o, ho, rfl, rfl, rfl⟩
   | cons a r ih =>
     obtain ⟨c, v⟩ := a
     have hc : c < cfg.ncols o.cls := hcols (c, v) (by simp)
     have hstep : (step cfg s (Op.setattr h c (.ok v) false)).1 =
-        setObj s h { o with dirty := true, pending := passign c v o.pending, cached := setCached o.cached c v } := by
+        setObj s h { o with dirty := true, pending := passign c (cfg.enc o.cls c v) o.pending,
+                             cached := setCached o.cached c (cfg.dec o.cls c (cfg.enc o.cls c v)) } := by
       simp [step, opSetattr, ho, Nat.not_le.mpr hc, hl]
     simp only [List.map_cons, run, hstep, List.foldl_cons]
-    let o1 : Inst := { o with dirty := true, pending := passign c v o.pending, cached := setCached o.cached c v }
+    let o1 : Inst := { o with dirty := true, pending := passign c (cfg.enc o.cls c v) o.pending,
+                              cached := setCached o.cached c (cfg.dec o.cls c (cfg.enc o.cls c v)) }
     obtain ⟨o', h1, h2, h3, h4⟩ := ih (setObj s h o1) o1 (by simp [setObj]) hl
       (fun kv hkv => hcols kv (by simp [hkv]))
     exact ⟨o', h1, h2, h3, h4⟩
@@ -168,7 +171,7 @@ theorem C16_dirty_iff_pending_history (cfg : Cfg) (ops : List Op) (h : Hnd) (o :
     exactly the given values when it returns (one INSERT sent, then the SELECT of `_init`; no UPDATE), and the
     new object has nothing pending. -/
 theorem C16_insert_immediate (cfg : Cfg) (s : State) (h : Hnd) (cls : Cls) (id : Id) (kvs : List (Col × Inp))
-    (p : Pend) (hfree : s.objs h = none) (hcols : colsOk (cfg.ncols cls) kvs = true) (hval : validate kvs = some p)
+    (p : Pend) (hfree : s.objs h = none) (hcols : colsOk (cfg.ncols cls) kvs = true) (hval : validate (cfg.enc cls) kvs = some p)
     (hrow : s.db cls id = none) :
     (opCreate cfg s h cls id kvs).2 = .ok ∧
     (opCreate cfg s h cls id kvs).1.db cls id = some (applyUpd (fun _ => none) p) ∧
@@ -191,7 +194,7 @@ theorem C16_delete_immediate (s : State) (h : Hnd) (o : Inst) (ho : s.objs h = s
 
 /-- inserts and deletes remain immediate (both halves, as one statement) -/
 theorem C16_insert_delete_immediate (cfg : Cfg) (s : State) (h : Hnd) :
-    (∀ cls id kvs p, s.objs h = none → colsOk (cfg.ncols cls) kvs = true → validate kvs = some p → s.db cls id = none →
+    (∀ cls id kvs p, s.objs h = none → colsOk (cfg.ncols cls) kvs = true → validate (cfg.enc cls) kvs = some p → s.db cls id = none →
       (opCreate cfg s h cls id kvs).1.db cls id = some (applyUpd (fun _ => none) p) ∧
       (opCreate cfg s h cls id kvs).1.updates = s.updates) ∧
     (∀ o, s.objs h = some o → (opDestroy s h).1.db o.cls o.id = none ∧ (opDestroy s h).1.updates = s.updates) :=
@@ -249,6 +252,7 @@ theorem C16_only_flush_ops_write_lazy (cfg : Cfg) (s : State) (op : Op) (hop : I
     · exact nlw_destroy _ _ _
   | pickle h fail => simp [IsFlushOp] at hop
   | drop h => exact nlw_log_eq _ _ _ rfl
+  | bulkDelete cls ids => exact nlw_one _ _ _ _ rfl rfl
   | oobUpdate cls id c v => exact nlw_log_eq _ _ _ rfl
   | oobDelete cls id => exact nlw_log_eq _ _ _ rfl
   | oobInsert cls id vals =>
@@ -287,7 +291,8 @@ def exFk16 : Cls → Option (Cls × FkKind)
 
 /-- class 0 eager; class 1 lazy with `ForeignKey(class 0, cascade='null')` in column 0 -/
 def exCfg16 : Cfg :=
-  { lazyUpdate := fun c => c == 1, cacheValues := fun _ => true, ncols := fun _ => 3, fk := exFk16, doCache := true }
+  { lazyUpdate := fun c => c == 1, cacheValues := fun _ => true, ncols := fun _ => 3,
+    enc := fun _ _ v => v, dec := fun _ _ v => v, fk := exFk16, doCache := true }
 
 /-- destroying the referenced row flushes the lazy referrer: ONE UPDATE holding its pending y AND the NULL,
     before the DELETE; afterwards the referrer is clean and its row holds NULL -/
@@ -313,6 +318,20 @@ example : ((run exCfg16 init [.create 0 1 1 [(0, .ok (some 1))], .set 0 [] false
 /-- former defect: `expire()` clears the dirty flag together with the pending values -/
 example : ((run exCfg16 init [.create 0 1 1 [(0, .ok (some 1))], .setattr 0 0 (.ok (some 4)) false, .expire 0]).objs 0).map
     (fun o => (o.dirty, o.pending)) = some (false, []) := by decide
+
+/-- a column with a real codec (stored = shown + 1000, like JSON text vs the Python value): after
+    expire → assign → read of ANOTHER column (reload of the row) the object still shows the ASSIGNED value
+    (`to_python` of the pending database-side value), and the pending / written value is the stored form -/
+def exCfgCodec : Cfg :=
+  { exCfg16 with enc := fun _ k v => if k = 2 then v.map (· + 1000) else v,
+                 dec := fun _ k v => if k = 2 then v.map (· - 1000) else v }
+
+example :
+    let s := run exCfgCodec init
+      [.create 0 1 1 [(0, .ok (some 1)), (1, .ok (some 2)), (2, .ok (some 3))], .expire 0,
+       .setattr 0 2 (.ok (some 5)) false, .read 0 1]
+    (opRead exCfgCodec s 0 2).2 = .val (some 5) ∧ (s.objs 0).map (·.pending) = some [(2, some 1005)] ∧
+    (s.db 1 1).map (· 2) = some (some 1003) := by decide
 
 /-- the hypothesis of `C16_no_update_before_sync_history` is satisfiable -/
 example : Hist (AssignOnLazy exCfg16) exCfg16
